@@ -1,8 +1,10 @@
 /-
-C01 helper lemmas: what the XML writer's refusal (`docRefused`: ParserException on an n-tuple item
-containing a comma or a line break, fix fc8b891) decides. On a valid document the writer refuses
-exactly the documents whose tuple values the bracketed text cannot carry, so "refused or round
-trip" holds with `xmlRepr` reduced to its name / uncertainty part (`xmlReprN`).
+C01 helper lemmas: what the XML writer's refusals decide. `docRefused` = ParserException for an
+n-tuple item containing a comma or a line break (fix fc8b891) and for a child name that is blank
+or equal after trimming to the name of an earlier sibling (fix e87b2d6). On a valid document the
+writer refuses exactly the documents the XML form cannot carry in these respects, so "refused or
+round trip" holds with `xmlRepr` reduced to its uncertainty part (`xmlReprU`, the one remaining
+open finding).
 -/
 import OdmlModel.Model.Xml
 import OdmlModel.Model.XmlRepr
@@ -10,22 +12,88 @@ import OdmlModel.Model.XmlRepr
 namespace Xml
 open Py
 
-/-- `propRepr` without the tuple-item condition (that part is decided by the writer itself). -/
-def propReprN (p : PropT) : Bool := nameRepr p.name && uncRepr p.uncertainty
+/-- `propRepr` without what the writer decides itself: no numeric `uncertainty`. -/
+def propReprU (p : PropT) : Bool := uncRepr p.uncertainty
 
 mutual
-def secReprN : SecT → Bool
-  | .mk _ name _ _ _ _ _ _ secs props _ _ =>
-    nameRepr name && props.all propReprN && distinctTrimmed (props.map (·.name)) &&
-    distinctTrimmed (secNames secs) && secsReprN secs
-def secsReprN : List SecT → Bool
+def secReprU : SecT → Bool
+  | .mk _ _ _ _ _ _ _ _ secs props _ _ => props.all propReprU && secsReprU secs
+def secsReprU : List SecT → Bool
   | [] => true
-  | s :: ss => secReprN s && secsReprN ss
+  | s :: ss => secReprU s && secsReprU ss
 end
 
-/-- Representable as far as names and uncertainties go: names not blank and distinct among
-    siblings after trimming, no numeric `uncertainty` (the three remaining open findings). -/
-def xmlReprN (d : DocT) : Bool := distinctTrimmed (secNames d.secs) && secsReprN d.secs
+/-- Representable as far as the writer does not decide it: no numeric `uncertainty` anywhere
+    (the remaining open finding: it is loaded back as text). -/
+def xmlReprU (d : DocT) : Bool := secsReprU d.secs
+
+theorem nodup_map_some {α : Type} (l : List α) : (l.map some).Nodup ↔ l.Nodup := by
+  induction l with
+  | nil => simp
+  | cons a r ih => simp [List.nodup_cons, ih]
+
+theorem secNames_eq_map : (l : List SecT) → secNames l = l.map secNameOf
+  | [] => rfl
+  | .mk _ _ _ _ _ _ _ _ _ _ _ _ :: ss => by
+    simp [secNames, secNameOf, secNames_eq_map ss]
+
+theorem map_strip_of_allSome : (names : List (Option Str)) → names.all Option.isSome = true →
+    names.map (Option.map strip) = (trimmedNames names).map some
+  | [], _ => rfl
+  | none :: _, h => by simp at h
+  | some s :: r, h => by
+    have hr : r.all Option.isSome = true := by simpa using h
+    simp [trimmedNames, List.filterMap_cons] at *
+    exact map_strip_of_allSome r (by simpa using hr)
+
+theorem nameRepr_all_of_trimmed : (names : List (Option Str)) → names.all Option.isSome = true →
+    (trimmedNames names).any (fun t => t.isEmpty) = false → names.all nameRepr = true
+  | [], _, _ => rfl
+  | none :: _, h, _ => by simp at h
+  | some s :: r, h, ht => by
+    have hr : r.all Option.isSome = true := by simpa using h
+    simp only [trimmedNames, List.filterMap_cons, Option.map_some, List.any_cons,
+      Bool.or_eq_false_iff] at ht
+    simp only [List.all_cons, Bool.and_eq_true, nameRepr]
+    exact ⟨by simp [ht.1], nameRepr_all_of_trimmed r hr ht.2⟩
+
+theorem names_ok_of_not_refused (names : List (Option Str)) (hs : names.all Option.isSome = true)
+    (h : namesRefused names = false) :
+    names.all nameRepr = true ∧ distinctTrimmed names = true := by
+  simp only [namesRefused, Bool.or_eq_false_iff, Bool.not_eq_false', decide_eq_true_eq] at h
+  refine ⟨nameRepr_all_of_trimmed names hs h.1, ?_⟩
+  simp only [distinctTrimmed, decide_eq_true_eq]
+  rw [map_strip_of_allSome names hs]
+  exact (nodup_map_some _).2 h.2
+
+theorem allSome_of_nameRepr : (names : List (Option Str)) → names.all nameRepr = true →
+    names.all Option.isSome = true
+  | [], _ => rfl
+  | none :: _, h => by simp [nameRepr] at h
+  | some _ :: r, h => by
+    have : r.all nameRepr = true := by
+      simp only [List.all_cons, Bool.and_eq_true] at h; exact h.2
+    simp [allSome_of_nameRepr r this]
+
+theorem trimmed_nonblank_of_nameRepr : (names : List (Option Str)) → names.all nameRepr = true →
+    (trimmedNames names).any (fun t => t.isEmpty) = false
+  | [], _ => rfl
+  | none :: _, h => by simp [nameRepr] at h
+  | some s :: r, h => by
+    simp only [List.all_cons, Bool.and_eq_true, nameRepr, Bool.not_eq_true'] at h
+    simp only [trimmedNames, List.filterMap_cons, Option.map_some, List.any_cons,
+      Bool.or_eq_false_iff]
+    exact ⟨h.1, trimmed_nonblank_of_nameRepr r h.2⟩
+
+theorem not_refused_of_names_ok (names : List (Option Str)) (hr : names.all nameRepr = true)
+    (hd : distinctTrimmed names = true) : namesRefused names = false := by
+  have hs := allSome_of_nameRepr names hr
+  simp only [namesRefused, Bool.or_eq_false_iff, Bool.not_eq_false', decide_eq_true_eq]
+  refine ⟨trimmed_nonblank_of_nameRepr names hr, ?_⟩
+  simp only [distinctTrimmed, decide_eq_true_eq] at hd
+  rw [map_strip_of_allSome names hs] at hd
+  exact (nodup_map_some _).1 hd
+
 
 theorem itemHasSep_eq (x : Str) : itemHasSep x = !itemRepr x := by
   simp [itemHasSep, itemRepr]
@@ -71,80 +139,130 @@ theorem valuesRepr_of_not_refused (lib : TokLib) (p : PropT) (hwf : propWf lib p
       | tuple xs => simp [valOk, ht'] at hok
       | _ => rfl
 
+
 theorem propRepr_of_not_refused (lib : TokLib) (p : PropT) (hwf : propWf lib p = true)
-    (hn : propReprN p = true) (hnr : propRefused p = false) : propRepr p = true := by
-  simp only [propReprN, Bool.and_eq_true] at hn
+    (hu : propReprU p = true) (hnr : propRefused p = false) (hn : nameRepr p.name = true) :
+    propRepr p = true := by
   simp only [propRepr, Bool.and_eq_true]
-  exact ⟨⟨hn.1, valuesRepr_of_not_refused lib p hwf hnr⟩, hn.2⟩
+  exact ⟨⟨hn, valuesRepr_of_not_refused lib p hwf hnr⟩, hu⟩
 
 theorem propsRepr_of_not_refused (lib : TokLib) (ps : List PropT)
-    (hwf : ps.all (propWf lib) = true) (hn : ps.all propReprN = true)
-    (hnr : ps.any propRefused = false) : ps.all propRepr = true := by
+    (hwf : ps.all (propWf lib) = true) (hu : ps.all propReprU = true)
+    (hnr : ps.any propRefused = false) (hn : (ps.map (·.name)).all nameRepr = true) :
+    ps.all propRepr = true := by
   induction ps with
   | nil => rfl
   | cons p r ih =>
-    simp only [List.all_cons, Bool.and_eq_true] at hwf hn
+    simp only [List.all_cons, Bool.and_eq_true] at hwf hu
     simp only [List.any_cons, Bool.or_eq_false_iff] at hnr
+    simp only [List.map_cons, List.all_cons, Bool.and_eq_true] at hn
     simp only [List.all_cons, Bool.and_eq_true]
-    exact ⟨propRepr_of_not_refused lib p hwf.1 hn.1 hnr.1, ih hwf.2 hn.2 hnr.2⟩
+    exact ⟨propRepr_of_not_refused lib p hwf.1 hu.1 hnr.1 hn.1, ih hwf.2 hu.2 hnr.2 hn.2⟩
+
+theorem props_allSome (lib : TokLib) (ps : List PropT) (hwf : ps.all (propWf lib) = true) :
+    (ps.map (·.name)).all Option.isSome = true := by
+  induction ps with
+  | nil => rfl
+  | cons p r ih =>
+    simp only [List.all_cons, Bool.and_eq_true] at hwf
+    have hp := hwf.1
+    simp only [propWf, Bool.and_eq_true] at hp
+    simp only [List.map_cons, List.all_cons, Bool.and_eq_true]
+    exact ⟨hp.1.1.2, ih hwf.2⟩
+
+theorem secs_allSome (lib : TokLib) : (l : List SecT) → secsWf lib l = true →
+    (l.map secNameOf).all Option.isSome = true
+  | [], _ => rfl
+  | .mk _ name _ _ _ _ _ _ _ _ _ _ :: ss, h => by
+    simp only [secsWf, secWf, Bool.and_eq_true] at h
+    simp only [List.map_cons, secNameOf, List.all_cons, Bool.and_eq_true]
+    exact ⟨h.1.1.1.1.1.1.2, secs_allSome lib ss h.2⟩
 
 mutual
 theorem secRepr_of_not_refused (lib : TokLib) : (s : SecT) → secWf lib s = true →
-    secReprN s = true → secRefused s = false → secRepr s = true
-  | .mk _ _ _ _ _ _ _ _ secs props _ _, hwf, hn, hnr => by
+    secReprU s = true → secRefused s = false → nameRepr (secNameOf s) = true → secRepr s = true
+  | .mk _ _ _ _ _ _ _ _ secs props _ _, hwf, hu, hnr, hn => by
     simp only [secWf, Bool.and_eq_true] at hwf
-    simp only [secReprN, Bool.and_eq_true] at hn
+    simp only [secReprU, Bool.and_eq_true] at hu
     simp only [secRefused, Bool.or_eq_false_iff] at hnr
+    obtain ⟨⟨⟨hpr, hpn⟩, hsn⟩, hsr⟩ := hnr
+    have hP := names_ok_of_not_refused _ (props_allSome lib props hwf.1.2) hpn
+    have hS := names_ok_of_not_refused _ (secs_allSome lib secs hwf.2) hsn
     simp only [secRepr, Bool.and_eq_true]
-    exact ⟨⟨⟨⟨hn.1.1.1.1, propsRepr_of_not_refused lib props hwf.1.2 hn.1.1.1.2 hnr.1⟩, hn.1.1.2⟩,
-      hn.1.2⟩, secsRepr_of_not_refused lib secs hwf.2 hn.2 hnr.2⟩
+    refine ⟨⟨⟨⟨by simpa [secNameOf] using hn,
+      propsRepr_of_not_refused lib props hwf.1.2 hu.1 hpr hP.1⟩, hP.2⟩, ?_⟩, ?_⟩
+    · rw [secNames_eq_map]; exact hS.2
+    · exact secsRepr_of_not_refused lib secs hwf.2 hu.2 hsr hS.1
 theorem secsRepr_of_not_refused (lib : TokLib) : (l : List SecT) → secsWf lib l = true →
-    secsReprN l = true → secsRefused l = false → secsRepr l = true
-  | [], _, _, _ => rfl
-  | s :: r, hwf, hn, hnr => by
+    secsReprU l = true → secsRefused l = false → (l.map secNameOf).all nameRepr = true →
+    secsRepr l = true
+  | [], _, _, _, _ => rfl
+  | s :: r, hwf, hu, hnr, hn => by
     simp only [secsWf, Bool.and_eq_true] at hwf
-    simp only [secsReprN, Bool.and_eq_true] at hn
+    simp only [secsReprU, Bool.and_eq_true] at hu
     simp only [secsRefused, Bool.or_eq_false_iff] at hnr
+    simp only [List.map_cons, List.all_cons, Bool.and_eq_true] at hn
     simp only [secsRepr, Bool.and_eq_true]
-    exact ⟨secRepr_of_not_refused lib s hwf.1 hn.1 hnr.1, secsRepr_of_not_refused lib r hwf.2 hn.2 hnr.2⟩
+    exact ⟨secRepr_of_not_refused lib s hwf.1 hu.1 hnr.1 hn.1,
+      secsRepr_of_not_refused lib r hwf.2 hu.2 hnr.2 hn.2⟩
 end
 
 theorem xmlRepr_of_not_refused (lib : TokLib) (d : DocT) (hwf : wfDoc lib d = true)
-    (hn : xmlReprN d = true) (hnr : docRefused d = false) : xmlRepr d = true := by
+    (hu : xmlReprU d = true) (hnr : docRefused d = false) : xmlRepr d = true := by
   simp only [wfDoc, Bool.and_eq_true] at hwf
-  simp only [xmlReprN, Bool.and_eq_true] at hn
+  simp only [docRefused, Bool.or_eq_false_iff] at hnr
+  have hS := names_ok_of_not_refused _ (secs_allSome lib d.secs hwf.2) hnr.1
   simp only [xmlRepr, Bool.and_eq_true]
-  exact ⟨hn.1, secsRepr_of_not_refused lib d.secs hwf.2 hn.2 hnr⟩
+  refine ⟨?_, secsRepr_of_not_refused lib d.secs hwf.2 hu hnr.2 hS.1⟩
+  rw [secNames_eq_map]; exact hS.2
 
 /-- A document inside `xmlRepr` is never refused. -/
 theorem not_refused_of_propsRepr (ps : List PropT) (h : ps.all propRepr = true) :
-    ps.any propRefused = false := by
-  rw [List.any_eq_false]
-  intro p hp
-  have hr := (List.all_eq_true.1 h) p hp
-  simp only [propRepr, Bool.and_eq_true] at hr
-  have : p.values.any valHasSep = false := by
-    rw [List.any_eq_false]
-    intro v hv
-    simp [valHasSep_eq, (List.all_eq_true.1 hr.1.2) v hv]
-  simp [propRefused, this]
+    ps.any propRefused = false ∧ (ps.map (·.name)).all nameRepr = true := by
+  induction ps with
+  | nil => exact ⟨rfl, rfl⟩
+  | cons p r ih =>
+    simp only [List.all_cons, Bool.and_eq_true] at h
+    have hp := h.1
+    simp only [propRepr, Bool.and_eq_true] at hp
+    have hv : p.values.any valHasSep = false := by
+      rw [List.any_eq_false]
+      intro v hv
+      simp [valHasSep_eq, (List.all_eq_true.1 hp.1.2) v hv]
+    have hpr : propRefused p = false := by simp [propRefused, hv]
+    obtain ⟨h1, h2⟩ := ih h.2
+    simp only [List.any_cons, Bool.or_eq_false_iff, List.map_cons, List.all_cons, Bool.and_eq_true]
+    exact ⟨⟨hpr, h1⟩, hp.1.1, h2⟩
 
 mutual
-theorem not_refused_of_secRepr : (s : SecT) → secRepr s = true → secRefused s = false
-  | .mk _ _ _ _ _ _ _ _ secs props _ _, hr => by
+theorem not_refused_of_secRepr : (s : SecT) → secRepr s = true →
+    secRefused s = false ∧ nameRepr (secNameOf s) = true
+  | .mk _ name _ _ _ _ _ _ secs props _ _, hr => by
     simp only [secRepr, Bool.and_eq_true] at hr
+    obtain ⟨⟨⟨⟨hn, hp⟩, hpd⟩, hsd⟩, hs⟩ := hr
+    obtain ⟨hp1, hp2⟩ := not_refused_of_propsRepr props hp
+    obtain ⟨hs1, hs2⟩ := not_refused_of_secsRepr secs hs
+    rw [secNames_eq_map] at hsd
     simp only [secRefused, Bool.or_eq_false_iff]
-    exact ⟨not_refused_of_propsRepr props hr.1.1.1.2, not_refused_of_secsRepr secs hr.2⟩
-theorem not_refused_of_secsRepr : (l : List SecT) → secsRepr l = true → secsRefused l = false
-  | [], _ => rfl
+    exact ⟨⟨⟨⟨hp1, not_refused_of_names_ok _ hp2 hpd⟩, not_refused_of_names_ok _ hs2 hsd⟩, hs1⟩,
+      by simpa [secNameOf] using hn⟩
+theorem not_refused_of_secsRepr : (l : List SecT) → secsRepr l = true →
+    secsRefused l = false ∧ (l.map secNameOf).all nameRepr = true
+  | [], _ => ⟨rfl, rfl⟩
   | s :: r, hr => by
     simp only [secsRepr, Bool.and_eq_true] at hr
-    simp only [secsRefused, Bool.or_eq_false_iff]
-    exact ⟨not_refused_of_secRepr s hr.1, not_refused_of_secsRepr r hr.2⟩
+    obtain ⟨a1, a2⟩ := not_refused_of_secRepr s hr.1
+    obtain ⟨b1, b2⟩ := not_refused_of_secsRepr r hr.2
+    simp only [secsRefused, Bool.or_eq_false_iff, List.map_cons, List.all_cons, Bool.and_eq_true]
+    exact ⟨⟨a1, b1⟩, a2, b2⟩
 end
 
 theorem not_refused_of_xmlRepr (d : DocT) (h : xmlRepr d = true) : docRefused d = false := by
   simp only [xmlRepr, Bool.and_eq_true] at h
-  exact not_refused_of_secsRepr d.secs h.2
+  obtain ⟨h1, h2⟩ := not_refused_of_secsRepr d.secs h.2
+  have hd := h.1
+  rw [secNames_eq_map] at hd
+  simp only [docRefused, Bool.or_eq_false_iff]
+  exact ⟨not_refused_of_names_ok _ h2 hd, h1⟩
 
 end Xml
